@@ -17,6 +17,9 @@ CONDS = ["b1", "b0", "s1", "s0", "i1", "i0", "s2", "str"]
 #        secret 2 (refused when checking is on), wrong type (refused)
 
 
+BLOCK_REALS = ("if", "else", "while", "elif", "for")
+
+
 class UserExc(Exception):
     pass
 
@@ -224,7 +227,11 @@ class Exec:
                 r = H.branching.if_then_else(cond, 7, body)
                 if refuse is None:
                     return
-            elif self.real in ("if", "else", "while"):
+            elif self.real in ("if", "else", "while", "elif", "for"):
+                if self.real == "for" and c not in ("b1", "b0", "s1", "s0"):
+                    return          # a loop bound is a number: only 0/1-valued secret conditions map to it
+                if self.real == "elif" and c not in ("b1", "b0"):
+                    return          # _elif combines its condition with the negated if-condition: boolean-typed only
                 self.block(cond, c, body)
         except Exception as ex:  # noqa: BLE001
             del self.model[depth:]
@@ -261,6 +268,23 @@ class Exec:
             Br._else(ctx=ctx)
             body()
             Br._endif(ctx=ctx)
+        elif self.real == "elif":
+            # region is the elif arm after an untaken if arm: effective condition = (not 0) & cond
+            Br._if(H.boolean.PrivValBool(0), ctx=ctx)
+            Br._elif(lambda: cond, ctx=ctx)
+            body()
+            Br._endif(ctx=ctx)
+        elif self.real == "for":
+            # one iteration of an oblivious for loop with secret bound: its guard is (0 != stop)
+            stop = cond.lc if isinstance(cond, H.boolean.LinCombBool) else cond
+            it = iter(Br._range(stop, max=1, ctx=ctx))
+            next(it)
+            body()
+            try:
+                next(it)
+            except StopIteration:
+                pass
+            Br._endfor(ctx=ctx)
         elif self.real == "while":
             # the library identifies a loop by the caller's line number: nested loops must be
             # opened from different source lines
@@ -277,7 +301,7 @@ class Exec:
             Br._endwhile(ctx=ctx)
 
 
-REALS = ["guarded", "ite-then", "ite-else", "if", "while"]
+REALS = ["guarded", "ite-then", "ite-else", "if", "while", "elif", "for"]
 
 
 def run_tree(tree, real, p):
@@ -290,7 +314,7 @@ def run_tree(tree, real, p):
         viols.append(({"klass": klass, "real": real, "where": where.split(" ")[0]}, text))
 
     ex = Exec(real, report)
-    if real in ("if", "else", "while"):
+    if real in BLOCK_REALS:
         ex.ctx = H.branching.BranchingValues()
     try:
         ex.run_items(tree)
@@ -299,7 +323,7 @@ def run_tree(tree, real, p):
     except Exception:  # noqa: BLE001 - value errors propagating to the top are part of the history
         pass
     ex.model = []
-    if real in ("if", "else", "while"):
+    if real in BLOCK_REALS:
         if ex.ctx.stack:
             # an exception escaped a block without its closing call: outside what the API can express
             ex.ctx.stack.clear()
@@ -315,7 +339,7 @@ def run_tree(tree, real, p):
 
 def applicable(tree, real):
     """Block realisations: exceptions must not escape a region without its closing call."""
-    if real in ("if", "else", "while"):
+    if real in BLOCK_REALS:
         def ok(items, inside):
             for it in items:
                 if it[0] in ("raise", "valerr") and inside:
@@ -398,7 +422,7 @@ def run(ctx):
     ctx.cov["exhaustive"] = True
     ctx.cov["rule"] = ("history = well-nested tree of regions (cost 2 each; 8 kinds of condition incl. refused ones), "
                        "API ops, user exceptions, value errors and try/except blocks (cost 1 each), total cost <= bound, "
-                       "nesting <= 3; every history x 6 realisations; after every event the real (guard, ignore_errors, "
+                       "nesting <= 3; every history x 8 realisations (guarded, lazy then/else branch, _if, _else, _elif, _while, _range); after every event the real (guard, ignore_errors, "
                        "LinComb.ONE, constants) is compared with the reference stack model (product of the enclosing "
                        "secret conditions); states = distinct (condition stack, guard-present, ignore flag, ONE-is-safe) "
                        "configurations reached; transitions = events executed")
